@@ -8,6 +8,7 @@ import (
 	"encoding/hex"
 	"fmt"
 	"math/big"
+	"os"
 	"sort"
 	"strings"
 	"time"
@@ -352,12 +353,17 @@ func subsets(n, minSize int) [][]int {
 }
 
 func main() {
+	if p := os.Getenv("C13_CONC_CHILD"); p != "" {
+		concChildMain(p)
+		return
+	}
 	a := hx.ParseArgs()
 	rng := hx.NewRng(a.Seed)
 	res := hx.NewResult("direct search: groups of n=3..10 members (k=GetGroupK(n)) built with the groupsig API and with the node's DKG code; " +
 		"every subset of >= k members (quick: all for n<=7, 40 sampled per larger n; thorough: all), 3 arrival orders each, through AddWitnessSign and through RecoverGroupSignature; " +
 		"arrival orders with a piece re-delivered before the threshold (panic or stuck lock inside AddWitnessSign = violation); several messages per group in one process (lengths 0..100, shared 32-byte suffix/prefix, zero-padded forms, shuffled and repeated): Sign = key*HashToPoint(msg) computed independently, share verifies for its own message only, recovered signature verifies under the group key; " +
 		"3-of-5 groups on the executable curve model (every delta_i*sig_i, the combination and gsk*H(m) recomputed by the model and compared with the returned bytes); " +
+		"several groups processed concurrently (own group per goroutine, every API result compared with its sequential reference; -race in the thorough tier) and the inventory of package-level state in groupsig/bn256; " +
 		"repeated members and repeated dealer pieces must be refused, RandomPerm/getRandomKSignInfo must return a k-subset, GetGroupK(n) = ceil(51n/100) for n < 3000; " +
 		"model cases: ShareSeckey/AggregateSeckeys scalars, recovery with arbitrary share scalars (map and ordered slices, ids congruent mod r, repeated id), DKG runs, per-member handleSharePiece runs, RandomPerm, GetGroupK, generator runs. " +
 		"non-trivial = distinct (group, subset, order, path) with |subset| >= k, or a model case with >= 2 points")
@@ -872,6 +878,10 @@ func main() {
 	for cg := 0; cg < curveGroups; cg++ {
 		curveCases(rng, res, curveBuf, cg, thorough)
 	}
+
+	// ---- several groups processed concurrently; inventory of package-level state ----
+	concurrencyFamily(a, res)
+	runInventory(res)
 
 	if thorough {
 		res.Exhaustive = true
